@@ -4,7 +4,8 @@
 //! (Argon2 at its minimum cost, rate limiter off, never sealed), one kernel
 //! thread. A case is a program (<= 40 steps) over root, 3-5 identities and 0-4
 //! groups and up to 6 secrets in 2-3 namespaces: set / get / list / rotate /
-//! delete / grant / grant_with_permission / grant_with_ttl / revoke / delegate /
+//! delete / grant / grant_with_permission / grant_with_ttl / revoke / delegate
+//! (over one or several secrets) / batch_get / batch_set(_detailed) /
 //! MEMBER-edge changes, clock advances aimed just before, at and just after the
 //! expiry of a TTL grant (no cleanup pass is ever called by the harness), and
 //! store snapshots.
@@ -16,6 +17,8 @@
 //! SUCCEEDS although the model holds no sufficient live grant is a violation;
 //! a call that is refused although the model holds one is reported as a
 //! labelled observation only (the text does not promise availability).
+//! Calls that take a LIST of secrets (delegate, batch_get, batch_set) are one
+//! access decision per (identity, secret) pair of the list.
 //! At-rest: after every mutating step the store image (`snapshot_bytes`) must
 //! contain no secret value and no secret name; audit records and error strings
 //! must contain no secret value.
@@ -58,7 +61,22 @@ pub enum Step {
     GrantPerm { who: u8, to: u8, sec: u8, lvl: u8 },
     GrantTtl { who: u8, to: u8, sec: u8, lvl: u8, ttl_ms: u32 },
     Revoke { who: u8, to: u8, sec: u8 },
-    Delegate { who: u8, to: u8, sec: u8, lvl: u8, ttl_ms: Option<u32> },
+    /// delegate(who -> to, [sec] ++ more, lvl, ttl): `Vault::delegate` takes a LIST of
+    /// secrets; `more` holds the further entries of the list (empty in old replay files)
+    Delegate {
+        who: u8,
+        to: u8,
+        sec: u8,
+        lvl: u8,
+        ttl_ms: Option<u32>,
+        #[serde(default)]
+        more: Vec<u8>,
+    },
+    /// batch_get(who, [secs]): the list form of get; one read decision per listed secret
+    BatchGet { who: u8, secs: Vec<u8> },
+    /// batch_set / batch_set_detailed(who, [(sec, value(val + k, sz))]): the list form of
+    /// set; one overwrite (or create) decision per listed secret
+    BatchSet { who: u8, secs: Vec<u8>, val: u32, sz: u8, detailed: bool },
     /// add / remove the MEMBER edge child -> group
     Member { child: u8, group: u8, on: bool },
     /// move the clock relative to the expiry window of the g-th TTL grant issued so far
@@ -938,32 +956,7 @@ impl<'a> Run<'a> {
                     self.refused_values.insert(value.clone());
                 }
                 let out = classify(&r);
-                // overwrite needs Write; creating is reserved to root (no grant can exist yet)
-                let bad = if self.m.exists[s] {
-                    self.judge("set", &req, s, 2, out, t0, t1, true)
-                } else {
-                    if out == Outcome::Ok && req != Vault::ROOT {
-                        let reason = if self.deleted_secs.contains(&s) { "deleted-secret" } else { "no-such-secret" };
-                        self.violation(
-                            0,
-                            format!("C14.access-without-live-grant/set-create/{reason}"),
-                            format!("set by {req} created secret #{s} although no grant can exist for it"),
-                        );
-                        true
-                    } else {
-                        if self.deleted_secs.contains(&s) && req != Vault::ROOT {
-                            self.ctx.probe("delete_then_access");
-                        }
-                        false
-                    }
-                };
-                if out == Outcome::Ok {
-                    self.m.exists[s] = true;
-                    self.m.value[s] = Some(value);
-                    if !bad {
-                        self.ctx.fp("set-ok");
-                    }
-                }
+                self.settle_write("set", "set-create", &req, s, value, out, t0, t1);
                 self.check_at_rest("set");
             },
             Step::Rotate { who, sec, val, sz } => {
@@ -1008,18 +1001,7 @@ impl<'a> Run<'a> {
                 self.last_cleanup = t1;
                 if let Ok(v) = &r {
                     self.ctx.fp("get-ok");
-                    if self.m.value[s].as_deref() != Some(v.as_str()) {
-                        if self.refused_values.contains(v) {
-                            // "can ... overwrite, rotate ... only while there is a ... grant": a refused write took effect
-                            self.violation(
-                                0,
-                                "C14.refused-write-took-effect".to_string(),
-                                format!("get of secret #{s} returned the value of a set/rotate call that the vault refused"),
-                            );
-                        } else {
-                            self.obs.insert("value-mismatch-on-get (outside the property text)".into());
-                        }
-                    }
+                    self.check_read_value(s, v);
                 }
             },
             Step::GetVersion { who, sec } => {
@@ -1163,37 +1145,68 @@ impl<'a> Run<'a> {
                 }
                 self.check_at_rest("revoke");
             },
-            Step::Delegate { who, to, sec, lvl, ttl_ms } => {
+            Step::Delegate { who, to, sec, lvl, ttl_ms, more } => {
                 let parent = self.names.who(*who).to_string();
                 let child = self.names.nonroot(*to).to_string();
-                let s = self.names.sec(*sec);
-                // a delegation on a secret that does not exist has nothing to act on: no-op
-                if !self.m.exists[s] || parent == child {
+                let mut all = vec![*sec];
+                all.extend(more.iter().copied());
+                // a delegation on a secret that does not exist has nothing to act on: such
+                // entries are left out of the list; an empty list is a no-op
+                let list: Vec<usize> = self.slots(&all).into_iter().filter(|s| self.m.exists[*s]).collect();
+                if list.is_empty() || parent == child {
                     return;
                 }
-                let name = self.names.secrets[s].clone();
+                let names: Vec<String> = list.iter().map(|s| self.names.secrets[*s].clone()).collect();
+                let name_refs: Vec<&str> = names.iter().map(String::as_str).collect();
                 let lvl = (*lvl).clamp(1, 3);
                 let ttl = ttl_ms.map(|ms| Duration::from_millis(u64::from(ms)));
                 let t0 = self.now();
-                let r = self.v().delegate(&parent, &child, &[name.as_str()], perm_of(lvl), ttl);
+                if list.len() >= 2 {
+                    self.ctx.probe("multi_secret_delegate");
+                    if parent != Vault::ROOT {
+                        let lv: Vec<u8> = list.iter().map(|s| self.m.perm(&parent, *s, t0, t0, Bound::Max, Hyp::default()).0).collect();
+                        let (lo, hi) = (*lv.iter().min().unwrap_or(&0), *lv.iter().max().unwrap_or(&0));
+                        if lo != hi && lo > 0 {
+                            self.ctx.probe("multi_delegate_mixed_levels");
+                        }
+                        if lo < lvl && lvl <= hi {
+                            self.ctx.probe("multi_delegate_above_weakest_level");
+                        }
+                    }
+                }
+                let r = self.v().delegate(&parent, &child, &name_refs, perm_of(lvl), ttl);
                 let t1 = self.now();
-                self.log_res(&format!("{i} delegate {parent} {child} #{s} {} ttl={ttl_ms:?}", lvl_name(lvl)), &r);
+                let shown: Vec<String> = list.iter().map(|s| format!("#{s}")).collect();
+                self.log_res(&format!("{i} delegate {parent} {child} [{}] {} ttl={ttl_ms:?}", shown.join(","), lvl_name(lvl)), &r);
                 if let Err(e) = &r {
                     self.check_error_text("delegate", e);
                 }
                 let out = classify(&r);
                 // delegation.rs / Vault::delegate docs: "The parent must have at least the
                 // requested permission on each secret" — a delegation hands on what the
-                // parent holds; it needs that level, not Admin.
-                self.judge("delegate", &parent, s, lvl, out, t0, t1, true);
+                // parent holds; it needs that level, not Admin. The access model judges every
+                // (identity, secret) pair of the list separately: a successful call is one
+                // grant decision per listed secret.
+                match out {
+                    Outcome::Ok => {
+                        for s in &list {
+                            self.judge("delegate", &parent, *s, lvl, Outcome::Ok, t0, t1, true);
+                        }
+                    },
+                    Outcome::Denied => {
+                        let pairs: Vec<(usize, u8)> = list.iter().map(|s| (*s, lvl)).collect();
+                        self.judge_list_denied("delegate", &parent, &pairs, t0, t1, true);
+                    },
+                    _ => {
+                        self.judge("delegate", &parent, list[0], lvl, out, t0, t1, true);
+                    },
+                }
                 if out == Outcome::Ok {
                     let exp = ttl_ms.map(|ms| (t0 + u64::from(ms) * 1_000_000, t1 + u64::from(ms) * 1_000_000));
                     let ttl_idx = exp.map(|w| {
                         self.ttl_windows.push(w);
                         self.ttl_windows.len() - 1
                     });
-                    // revocation state of an earlier grant does not touch the new one
-                    self.revoked_pairs.remove(&(child.clone(), s));
                     // "The child receives min(parent permission, requested permission)": the
                     // returned record states that ceiling (it can be lower than requested when
                     // the parent's own grant expires while the call is running)
@@ -1203,10 +1216,184 @@ impl<'a> Run<'a> {
                         _ => 1,
                     };
                     let level = lvl.min(reported);
-                    self.m.grants.push(MGrant { grantee: child, sec: s, level, exp, dead: None, ttl_idx });
-                    self.ctx.fp("delegate-ok");
+                    for s in &list {
+                        // revocation state of an earlier grant does not touch the new one
+                        self.revoked_pairs.remove(&(child.clone(), *s));
+                        self.m.grants.push(MGrant { grantee: child.clone(), sec: *s, level, exp, dead: None, ttl_idx });
+                    }
+                    self.ctx.fp(if list.len() >= 2 { "delegate-multi-ok" } else { "delegate-ok" });
                 }
                 self.check_at_rest("delegate");
+            },
+            Step::BatchGet { who, secs } => {
+                let req = self.names.who(*who).to_string();
+                let list = self.slots(secs);
+                if list.is_empty() {
+                    return;
+                }
+                let names: Vec<String> = list.iter().map(|s| self.names.secrets[*s].clone()).collect();
+                let name_refs: Vec<&str> = names.iter().map(String::as_str).collect();
+                let t0 = self.now();
+                let r = self.v().batch_get(&req, &name_refs);
+                let t1 = self.now();
+                let shown: Vec<String> = list.iter().map(|s| format!("#{s}")).collect();
+                self.log_res(&format!("{i} batch_get {req} [{}]", shown.join(",")), &r);
+                match &r {
+                    Ok(results) => {
+                        let (mut n_ok, mut n_denied) = (0, 0);
+                        for (k, (key, res)) in results.iter().enumerate() {
+                            // results come back in the order of the request
+                            let Some(s) = list.get(k).copied().filter(|s| &self.names.secrets[*s] == key) else {
+                                self.obs.insert("batch_get returned a key that was not asked for at that position".into());
+                                continue;
+                            };
+                            self.log_res(&format!("{i}   batch_get {req} #{s}"), res);
+                            if let Err(e) = res {
+                                self.check_error_text("batch_get", e);
+                            }
+                            let out = classify(res);
+                            match out {
+                                Outcome::Ok => n_ok += 1,
+                                Outcome::Denied => n_denied += 1,
+                                _ => {},
+                            }
+                            // every entry is one read decision about its own (identity, secret) pair
+                            self.judge("batch_get", &req, s, 1, out, t0, t1, false);
+                            if let Ok(v) = res {
+                                self.check_read_value(s, v);
+                            }
+                        }
+                        if n_ok > 0 && n_denied > 0 && req != Vault::ROOT {
+                            self.ctx.probe("batch_get_mixed_allow_deny");
+                        }
+                        self.ctx.fp("batch-get-ok");
+                    },
+                    Err(e) => {
+                        self.check_error_text("batch_get", e);
+                        if classify(&r) == Outcome::Excluded {
+                            self.ctx.probe("excluded_rate_or_seal");
+                        }
+                    },
+                }
+                self.last_cleanup = t1;
+            },
+            Step::BatchSet { who, secs, val, sz, detailed } => {
+                let req = self.names.who(*who).to_string();
+                let list = self.slots(secs);
+                if list.is_empty() {
+                    return;
+                }
+                let names: Vec<String> = list.iter().map(|s| self.names.secrets[*s].clone()).collect();
+                // one value per entry, so that what was written where can be told apart
+                // (the size class `sz` goes to one entry, the others take an ordinary size: an
+                // over-limit value then fails one entry of the batch, not all)
+                let special = *val as usize % list.len();
+                let vals: Vec<String> =
+                    (0..list.len()).map(|k| value_for(cfg, val.wrapping_add(k as u32), if k == special { *sz } else { *sz % 5 })).collect();
+                for v in &vals {
+                    if v.len() > MAX_VALUE {
+                        self.ctx.probe("over_limit_value_offered");
+                    }
+                    self.values.extend(value_needles(v));
+                }
+                let entries: Vec<(&str, &str)> = names.iter().zip(&vals).map(|(n, v)| (n.as_str(), v.as_str())).collect();
+                let shown: Vec<String> = list.iter().map(|s| format!("#{s}")).collect();
+                let t0 = self.now();
+                // per entry: Some(outcome) once it is known what the vault decided about it
+                let mut outs: Vec<Option<Outcome>> = vec![None; list.len()];
+                let mut whole_denied = false;
+                if *detailed {
+                    let r = self.v().batch_set_detailed(&req, &entries);
+                    self.log_res(&format!("{i} batch_set_detailed {req} [{}] len={}", shown.join(","), vals[special].len()), &r);
+                    match &r {
+                        Ok(res) => {
+                            for (k, n) in names.iter().enumerate() {
+                                match res.failed.iter().find(|(key, _)| key == n) {
+                                    Some((_, e)) => {
+                                        self.check_error_text("batch_set", e);
+                                        let er: Result<(), VaultError> = Err(e.clone());
+                                        self.log_res(&format!("{i}   batch_set {req} #{}", list[k]), &er);
+                                        outs[k] = Some(classify(&er));
+                                    },
+                                    None => outs[k] = Some(Outcome::Ok),
+                                }
+                            }
+                        },
+                        Err(e) => {
+                            self.check_error_text("batch_set", e);
+                            let o = classify(&r);
+                            outs.iter_mut().for_each(|x| *x = Some(o));
+                        },
+                    }
+                } else {
+                    let r = self.v().batch_set(&req, &entries);
+                    self.log_res(&format!("{i} batch_set {req} [{}] len={}", shown.join(","), vals[special].len()), &r);
+                    match &r {
+                        Ok(()) => outs.iter_mut().for_each(|x| *x = Some(Outcome::Ok)),
+                        Err(e) => {
+                            self.check_error_text("batch_set", e);
+                            whole_denied = classify(&r) == Outcome::Denied;
+                            if classify(&r) == Outcome::Excluded {
+                                self.ctx.probe("excluded_rate_or_seal");
+                            }
+                        },
+                    }
+                }
+                let t1 = self.now();
+                if outs.iter().any(Option::is_none) {
+                    // batch_set stops at the first entry that fails ("partial failure is possible")
+                    // and processes the entries in an order of its own: which entries were written
+                    // is read back by root (a harness read; it runs the vault's cleanup pass)
+                    for k in 0..list.len() {
+                        let cur = self.v().get(Vault::ROOT, &names[k]).ok();
+                        // (an offered value equal to the one the secret held before the call —
+                        // possible with the 1-byte values of naming mode 1 — tells nothing:
+                        // written or not, the state is the same, and the entry stays undecided)
+                        if cur.as_deref() == Some(vals[k].as_str()) && self.m.value[list[k]].as_deref() != Some(vals[k].as_str()) {
+                            outs[k] = Some(Outcome::Ok);
+                        }
+                    }
+                    self.last_cleanup = self.now();
+                    self.ctx.probe("batch_set_partial_failure_read_back");
+                }
+                let (mut n_ok, mut n_denied) = (0, 0);
+                let mut unexplained: Vec<(usize, u8)> = Vec::new();
+                for k in 0..list.len() {
+                    match outs[k] {
+                        Some(out) => {
+                            match out {
+                                Outcome::Ok => n_ok += 1,
+                                Outcome::Denied => n_denied += 1,
+                                _ => {},
+                            }
+                            self.settle_write("batch_set", "batch_set-create", &req, list[k], vals[k].clone(), out, t0, t1);
+                        },
+                        None => {
+                            // not written; the single error of the call is about one of these entries
+                            self.refused_values.insert(vals[k].clone());
+                            unexplained.push((list[k], 2));
+                        },
+                    }
+                    if self.viols.iter().any(|(p, _)| *p == 0) {
+                        break;
+                    }
+                }
+                if whole_denied && !unexplained.is_empty() {
+                    n_denied += 1;
+                    if unexplained.iter().any(|(s, _)| !self.m.exists[*s]) && req != Vault::ROOT {
+                        // creating is reserved to root: that explains the refusal
+                        self.denied_calls += 1;
+                    } else {
+                        self.judge_list_denied("batch_set", &req, &unexplained, t0, t1, true);
+                    }
+                }
+                if n_ok > 0 && n_denied > 0 && req != Vault::ROOT {
+                    self.ctx.probe("batch_set_mixed_allow_deny");
+                }
+                if n_ok > 0 {
+                    self.ctx.fp("batch-set-ok");
+                }
+                self.check_at_rest("batch_set");
             },
             Step::Member { child, group, on } => {
                 let Some(g) = self.names.group(*group).map(str::to_string) else { return };
@@ -1276,6 +1463,87 @@ impl<'a> Run<'a> {
                 self.ctx.probe("obs_reload");
             },
         }
+    }
+
+    /// slots of a step's secret list, in order, without repetitions
+    fn slots(&self, secs: &[u8]) -> Vec<usize> {
+        let mut out: Vec<usize> = Vec::new();
+        for x in secs {
+            let s = self.names.sec(*x);
+            if !out.contains(&s) {
+                out.push(s);
+            }
+        }
+        out
+    }
+
+    /// A value handed out by get / batch_get that is not the value the model holds.
+    fn check_read_value(&mut self, s: usize, v: &str) {
+        if self.m.value[s].as_deref() != Some(v) {
+            if self.refused_values.contains(v) {
+                // "can ... overwrite, rotate ... only while there is a ... grant": a refused write took effect
+                self.violation(
+                    0,
+                    "C14.refused-write-took-effect".to_string(),
+                    format!("get of secret #{s} returned the value of a set/rotate call that the vault refused"),
+                );
+            } else {
+                self.obs.insert("value-mismatch-on-get (outside the property text)".into());
+            }
+        }
+    }
+
+    /// One write decision of set / batch_set about the pair (req, secret #s).
+    #[allow(clippy::too_many_arguments)]
+    fn settle_write(&mut self, op: &'static str, create_op: &'static str, req: &str, s: usize, value: String, out: Outcome, t0: u64, t1: u64) {
+        if out != Outcome::Ok {
+            self.refused_values.insert(value.clone());
+        }
+        // overwrite needs Write; creating is reserved to root (no grant can exist yet)
+        let bad = if self.m.exists[s] {
+            self.judge(op, req, s, 2, out, t0, t1, true)
+        } else if out == Outcome::Ok && req != Vault::ROOT {
+            let reason = if self.deleted_secs.contains(&s) { "deleted-secret" } else { "no-such-secret" };
+            self.violation(
+                0,
+                format!("C14.access-without-live-grant/{create_op}/{reason}"),
+                format!("{op} by {req} created secret #{s} although no grant can exist for it"),
+            );
+            true
+        } else {
+            if self.deleted_secs.contains(&s) && req != Vault::ROOT {
+                self.ctx.probe("delete_then_access");
+            }
+            false
+        };
+        if out == Outcome::Ok {
+            self.m.exists[s] = true;
+            self.m.value[s] = Some(value);
+            if !bad {
+                self.ctx.fp("set-ok");
+            }
+        }
+    }
+
+    /// A call over a LIST of secrets was refused as a whole. The refusal is an access
+    /// decision about at least one listed pair: it is explained as soon as the model does
+    /// not certainly allow one of them; only when the model certainly allows every listed
+    /// pair is it an over-deny (observation, see `judge`).
+    fn judge_list_denied(&mut self, op: &'static str, req: &str, pairs: &[(usize, u8)], t0: u64, t1: u64, mutating: bool) {
+        let Some(first) = pairs.first().copied() else { return };
+        let explained = pairs
+            .iter()
+            .copied()
+            .find(|(s, need)| !self.m.exists[*s] || self.m.perm(req, *s, t0, t1, Bound::Min, Hyp::default()).0 < *need);
+        // certainly allowed on every pair: report the over-deny on the pair that carries the
+        // known cause (an expired TTL sibling grant of the same pair), if one does
+        let dist = self.m.reach(req);
+        let with_sibling = pairs
+            .iter()
+            .copied()
+            .find(|(s, _)| self.m.grants.iter().any(|g| g.sec == *s && dist.contains_key(&g.grantee) && g.exp.is_some_and(|(lo, _)| lo <= t1)));
+        let (s, need) = explained.or(with_sibling).unwrap_or(first);
+        self.judge(op, req, s, need, Outcome::Denied, t0, t1, mutating);
     }
 
     #[allow(clippy::too_many_arguments)]
@@ -1503,6 +1771,49 @@ fn gen_case(rng: &mut Rng, tier: Tier, index: u64) -> Case {
         }
         holders.push((to + 1, sec));
     }
+    // phase 3b: a portfolio — one principal holds something on several secrets, the level
+    // drawn independently per secret (the usual shape of a real access graph; list calls
+    // by such a principal meet different levels across their list)
+    if rng.chance(3, 5) && n_create >= 2 {
+        let to = rng.below(u64::from(n_principals) - 1) as u8;
+        let first = rng.below(u64::from(n_create)) as u8;
+        let n = rng.range(2, u64::from(n_create).min(3)) as u8;
+        for k in 0..n {
+            let sec = (first + k) % n_create;
+            let lvl = rng.range(1, 3) as u8;
+            if rng.chance(1, 6) {
+                let ttl_ms = *rng.pick(&[50u32, 1_000, 60_000]);
+                steps.push(Step::GrantTtl { who: 0, to, sec, lvl, ttl_ms });
+                pending.push((n_ttl, to + 1, sec));
+                n_ttl = n_ttl.wrapping_add(1);
+            } else {
+                steps.push(Step::GrantPerm { who: 0, to, sec, lvl });
+            }
+            holders.push((to + 1, sec));
+        }
+    }
+    // further secrets for a list call by principal p that starts with `first`: those p is
+    // believed to hold something on, sometimes any other
+    let multi_secs = |rng: &mut Rng, holders: &Vec<(u8, u8)>, p: u8, first: u8| -> Vec<u8> {
+        let mut v: Vec<u8> = Vec::new();
+        for (q, s) in holders {
+            if *q == p && *s != first && !v.contains(s) {
+                v.push(*s);
+            }
+        }
+        if v.len() > 1 {
+            let k = rng.usize_below(v.len());
+            v.swap(0, k);
+        }
+        v.truncate(rng.range(1, 3) as usize);
+        if v.is_empty() || rng.chance(1, 4) {
+            let s = if rng.chance(5, 6) { rng.below(u64::from(n_create)) as u8 } else { rng.below(u64::from(n_secrets)) as u8 };
+            if s != first && !v.contains(&s) {
+                v.push(s);
+            }
+        }
+        v
+    };
     let pick_who = |rng: &mut Rng, holders: &Vec<(u8, u8)>| -> (u8, u8) {
         // (principal index into `principals`, secret)
         let any_sec = |rng: &mut Rng| {
@@ -1528,8 +1839,19 @@ fn gen_case(rng: &mut Rng, tier: Tier, index: u64) -> Case {
         }
     };
     let access_op = |rng: &mut Rng, who: u8, sec: u8, mutating_bias: bool, nv: &mut dyn FnMut() -> u32| -> Step {
-        let r = rng.below(20);
+        let r = rng.below(22);
         let m = if mutating_bias { 4 } else { 0 };
+        // 1-2 further secrets for the list forms (delegate / batch_get / batch_set)
+        let others = |rng: &mut Rng| -> Vec<u8> {
+            let mut v = Vec::new();
+            for _ in 0..rng.range(1, 2) {
+                let s = rng.below(u64::from(n_create)) as u8;
+                if s != sec && !v.contains(&s) {
+                    v.push(s);
+                }
+            }
+            v
+        };
         if r < 5 - m {
             if rng.chance(1, 6) {
                 Step::GetVersion { who, sec }
@@ -1550,8 +1872,21 @@ fn gen_case(rng: &mut Rng, tier: Tier, index: u64) -> Case {
             Step::GrantPerm { who, to: rng.below(u64::from(n_principals) - 1) as u8, sec, lvl: rng.range(1, 3) as u8 }
         } else if r < 18 {
             Step::Revoke { who, to: rng.below(u64::from(n_principals) - 1) as u8, sec }
+        } else if r < 20 {
+            let more = if rng.chance(1, 2) { others(rng) } else { Vec::new() };
+            Step::Delegate { who, to: rng.below(u64::from(n_principals) - 1) as u8, sec, lvl: rng.range(1, 3) as u8, ttl_ms: None, more }
+        } else if r < 21 {
+            let mut secs = vec![sec];
+            secs.extend(others(rng));
+            Step::BatchGet { who, secs }
         } else {
-            Step::Delegate { who, to: rng.below(u64::from(n_principals) - 1) as u8, sec, lvl: rng.range(1, 3) as u8, ttl_ms: None }
+            let mut secs = vec![sec];
+            secs.extend(others(rng));
+            let v = nv();
+            for _ in 1..secs.len() {
+                nv();
+            }
+            Step::BatchSet { who, secs, val: v, sz: sz(rng), detailed: rng.chance(1, 2) }
         }
     };
 
@@ -1617,22 +1952,30 @@ fn gen_case(rng: &mut Rng, tier: Tier, index: u64) -> Case {
                 let w = if p > n_ids && rng.chance(1, 2) { rng.range(1, u64::from(n_ids)) as u8 } else { p };
                 steps.push({ let mb = rng.chance(1, 2); access_op(rng, w, sec, mb, &mut next_val) });
             }
-        } else if r < 37 {
-            // delegate, some with TTL
-            let (p, sec) = if holders.is_empty() || rng.chance(1, 3) { (0, rng.below(u64::from(n_create)) as u8) } else { holders[rng.usize_below(holders.len())] };
+        } else if r < 39 {
+            // delegate, some with TTL, half of them over a list of secrets
+            let (p, sec) = if holders.is_empty() || rng.chance(1, 4) { (0, rng.below(u64::from(n_create)) as u8) } else { holders[rng.usize_below(holders.len())] };
             let to = to_any(rng);
-            let ttl_ms = if rng.chance(1, 2) { Some(*rng.pick(&[1u32, 20, 1_000, 60_000])) } else { None };
-            steps.push(Step::Delegate { who: p, to, sec, lvl: rng.range(1, 3) as u8, ttl_ms });
+            let ttl_ms = if rng.chance(2, 5) { Some(*rng.pick(&[1u32, 20, 1_000, 60_000])) } else { None };
+            let more = if rng.chance(1, 2) { multi_secs(rng, &holders, p, sec) } else { Vec::new() };
+            steps.push(Step::Delegate { who: p, to, sec, lvl: rng.range(1, 3) as u8, ttl_ms, more: more.clone() });
             holders.push((to + 1, sec));
+            for s in &more {
+                holders.push((to + 1, *s));
+            }
             if ttl_ms.is_some() {
                 pending.push((n_ttl, to + 1, sec));
                 n_ttl = n_ttl.wrapping_add(1);
+            } else if !more.is_empty() && to + 1 <= n_ids && rng.chance(1, 2) {
+                // the child uses what it was handed on one of the listed secrets
+                let s = if rng.chance(1, 2) { sec } else { more[rng.usize_below(more.len())] };
+                steps.push(access_op(rng, to + 1, s, true, &mut next_val));
             }
-        } else if r < 45 && n_groups > 0 {
+        } else if r < 46 && n_groups > 0 {
             let on = rng.chance(3, 4);
             let child = if rng.chance(2, 3) { rng.below(u64::from(n_ids)) as u8 } else { n_ids + rng.below(u64::from(n_groups)) as u8 };
             steps.push(Step::Member { child, group: rng.below(u64::from(n_groups)) as u8, on });
-        } else if r < 49 {
+        } else if r < 50 {
             // root deletes / recreates
             let sec = rng.below(u64::from(n_secrets)) as u8;
             if rng.chance(1, 2) {
@@ -1640,10 +1983,24 @@ fn gen_case(rng: &mut Rng, tier: Tier, index: u64) -> Case {
             } else {
                 steps.push(Step::Set { who: 0, sec, val: next_val(), sz: sz(rng) });
             }
-        } else if r < 53 {
+        } else if r < 54 {
             steps.push(Step::Snapshot);
-        } else if r < 57 {
+        } else if r < 58 {
             steps.push(Step::AdvanceMs(*rng.pick(&[1u32, 10, 999, 1_000, 60_000])));
+        } else if r < 63 {
+            // the list forms of get / set over what the caller holds (and sometimes more)
+            let (w, s) = pick_who(rng, &holders);
+            let mut secs = vec![s];
+            secs.extend(multi_secs(rng, &holders, w, s));
+            if rng.chance(1, 2) {
+                steps.push(Step::BatchGet { who: w, secs });
+            } else {
+                let v = next_val();
+                for _ in 1..secs.len() {
+                    next_val();
+                }
+                steps.push(Step::BatchSet { who: w, secs, val: v, sz: sz(rng), detailed: rng.chance(1, 2) });
+            }
         } else {
             let (w, s) = pick_who(rng, &holders);
             steps.push(access_op(rng, w, s, false, &mut next_val));
@@ -1707,6 +2064,42 @@ impl Scenario for C14 {
                     c.steps[i] = Step::Rotate { who: *who, sec: *sec, val: *val, sz: 0 };
                     v.push(c);
                 },
+                // shorter lists for the list calls
+                Step::Delegate { who, to, sec, lvl, ttl_ms, more } if !more.is_empty() => {
+                    for k in 0..more.len() {
+                        let mut m = more.clone();
+                        m.remove(k);
+                        let mut c = case.clone();
+                        c.steps[i] = Step::Delegate { who: *who, to: *to, sec: *sec, lvl: *lvl, ttl_ms: *ttl_ms, more: m };
+                        v.push(c);
+                    }
+                    // the first entry goes, the next one takes its place
+                    let mut c = case.clone();
+                    c.steps[i] = Step::Delegate { who: *who, to: *to, sec: more[0], lvl: *lvl, ttl_ms: *ttl_ms, more: more[1..].to_vec() };
+                    v.push(c);
+                },
+                Step::BatchGet { who, secs } if secs.len() > 1 => {
+                    for k in 0..secs.len() {
+                        let mut m = secs.clone();
+                        m.remove(k);
+                        let mut c = case.clone();
+                        c.steps[i] = Step::BatchGet { who: *who, secs: m };
+                        v.push(c);
+                    }
+                },
+                Step::BatchSet { who, secs, val, sz, detailed } if secs.len() > 1 || *sz != 0 => {
+                    if secs.len() > 1 {
+                        // drop from the end only: entry k keeps the value val + k
+                        let mut c = case.clone();
+                        c.steps[i] = Step::BatchSet { who: *who, secs: secs[..secs.len() - 1].to_vec(), val: *val, sz: *sz, detailed: *detailed };
+                        v.push(c);
+                    }
+                    if *sz != 0 {
+                        let mut c = case.clone();
+                        c.steps[i] = Step::BatchSet { who: *who, secs: secs.clone(), val: *val, sz: 0, detailed: *detailed };
+                        v.push(c);
+                    }
+                },
                 Step::Grant { who, to, sec } if *who != 0 => {
                     let mut c = case.clone();
                     c.steps[i] = Step::Grant { who: 0, to: *to, sec: *sec };
@@ -1750,14 +2143,19 @@ impl Scenario for C14 {
             "grant_by_non_admin",
             "store_image_scanned",
             "audit_records_scanned",
+            // list calls: the levels of the caller differ across the list
+            "multi_delegate_mixed_levels",
+            "multi_delegate_above_weakest_level",
+            "batch_get_mixed_allow_deny",
+            "batch_set_mixed_allow_deny",
         ]
     }
     fn rule(&self) -> String {
-        "A case is a generated program of <=40 steps over root, 3-5 identities, 0-4 groups and 2-6 secrets in 2-3 namespaces (set/get/list/rotate/delete/grant/grant_with_permission/grant_with_ttl/revoke/delegate/MEMBER edge add+remove, clock advances aimed before/at/after a TTL grant's expiry window, snapshots) plus an attenuation policy (admin_limit, write_limit, horizon) and a naming mode (long unique alphanumeric names+values with at-rest checks, or short/non-ASCII names and arbitrary UTF-8 values with only the allow/deny matrix judged). Every call's outcome is compared with an independent access model. Non-trivial: at least 2 calls were allowed and at least 1 was refused. Distinct: hash of (naming mode, attenuation policy, sequence of successful operation kinds).".into()
+        "A case is a generated program of <=40 steps over root, 3-5 identities, 0-4 groups and 2-6 secrets in 2-3 namespaces (set/get/list/rotate/delete/grant/grant_with_permission/grant_with_ttl/revoke/delegate over one or several secrets/batch_get/batch_set/batch_set_detailed/MEMBER edge add+remove, clock advances aimed before/at/after a TTL grant's expiry window, snapshots) plus an attenuation policy (admin_limit, write_limit, horizon) and a naming mode (long unique alphanumeric names+values with at-rest checks, or short/non-ASCII names and arbitrary UTF-8 values with only the allow/deny matrix judged). Every call's outcome is compared with an independent access model; a call over a list of secrets is one decision per (identity, secret) pair. Non-trivial: at least 2 calls were allowed and at least 1 was refused. Distinct: hash of (naming mode, attenuation policy, sequence of successful operation kinds).".into()
     }
     fn components(&self) -> Value {
         json!({
-            "real": ["tensor_vault::Vault (set, get, list, rotate, delete, grant, grant_with_permission, grant_with_ttl, revoke, delegate, audit_recent, Vault::new reload)", "tensor_vault AccessController / AttenuationPolicy / GrantTTLTracker / DelegationManager / AuditLog / Obfuscator / Cipher", "graph_engine::GraphEngine (MEMBER edges through the public graph handle)", "tensor_store::TensorStore incl. snapshot_bytes"],
+            "real": ["tensor_vault::Vault (set, get, list, rotate, delete, grant, grant_with_permission, grant_with_ttl, revoke, delegate incl. multi-secret lists, batch_get, batch_set, batch_set_detailed, audit_recent, Vault::new reload)", "tensor_vault AccessController / AttenuationPolicy / GrantTTLTracker / DelegationManager / AuditLog / Obfuscator / Cipher", "graph_engine::GraphEngine (MEMBER edges through the public graph handle)", "tensor_store::TensorStore incl. snapshot_bytes"],
             "simulated": ["monotonic and wall clock (clock_gettime interposed; every read moves time by 100 ns)", "getrandom (nonces, salts, HashMap seeds)"],
             "stub": ["Argon2 cost at its minimum (8 KiB, t=1, p=1) through VaultConfig", "rate limiter disabled, vault never sealed"]
         })
@@ -1767,6 +2165,8 @@ impl Scenario for C14 {
             "the property is read one-directionally: success without a sufficient live grant is a violation; a refusal despite a live grant is only a labelled observation (over-deny/*)".into(),
             "whether a grant is live exactly AT its expiry instant is undocumented: a call is judged only if it ended strictly before the earliest, or began strictly after the latest, instant the expiry can have been computed at".into(),
             "level needed per call, from the Permission documentation: get/list Read; set (overwrite)/rotate Write; delete/grant/revoke Admin; creating a secret is reserved to root; delegate needs the delegated level (Vault::delegate documentation), not Admin".into(),
+            "calls that take a list of secrets are judged per (identity, secret) pair: a successful delegate needs the delegated level on EVERY listed secret; batch_get / batch_set / batch_set_detailed are the list forms of get / set (Read / Write per entry, creating reserved to root); a list call refused as a whole is explained by any one listed pair the model does not certainly allow".into(),
+            "after a batch_set that failed half-way (it stops at the first failing entry, in an order of its own) the harness reads the listed secrets back as root to learn which entries were written; that read runs the vault's cleanup pass".into(),
             "distance = MEMBER hops + 1; attenuation as documented in attenuation.rs (Admin up to admin_limit hops, Write up to write_limit, Read up to horizon)".into(),
             "group membership is changed through the vault's public graph handle (MEMBER edges), the only way the crate offers".into(),
             "a namespace prefix appearing in clear is not counted as the secret's name appearing (observation namespace-prefix-at-rest)".into(),
